@@ -100,7 +100,7 @@ Print Assumptions C17_permute_coded_refuted.
 
 (* ---- the NAMED catalogues (Model/C17_Names.v: every name is printed from its table code; the harness compares these name lists with
    quara's get_*_names* functions and every generated object with the table stored next to its name).  Names of one catalogue are pairwise
-   different; every named state (749) is normalised; every named POVM on 1, 2 qubits and 1, 2 qutrits (87) sums to the identity. *)
+   different; every named state (749) is normalised; every named POVM (all 114, incl. the 27 three-qubit products) sums to the identity. *)
 Theorem C17_catalogue_names_distinct :
   (forall sys, (sys < 5)%nat -> NoDup (map fst (cat_states sys))) /\
   (forall sys, (sys < 5)%nat -> NoDup (map fst (cat_povms sys))) /\
@@ -113,7 +113,7 @@ Theorem C17_named_states_normalised : forall sys, (sys < 5)%nat -> Forall (fun e
 Proof. exact named_states_normalised. Qed.
 Print Assumptions C17_named_states_normalised.
 
-Theorem C17_named_povms_complete : forall sys, (sys < 5)%nat -> sys <> 2%nat -> Forall povm_name_complete (cat_povms sys).
+Theorem C17_named_povms_complete : forall sys, (sys < 5)%nat -> Forall povm_name_complete (cat_povms sys).
 Proof. exact named_povms_complete. Qed.
 Print Assumptions C17_named_povms_complete.
 
